@@ -125,6 +125,17 @@ impl Rollback {
                 Ok(())
             },
         )?;
+        // The manifest is written before the oldest delta is pruned from the log, so the live
+        // range can still cover deltas beyond the configured length. Those were already dropped
+        // by the previous handle and must not become available for rollback again.
+        let mut seglog = seglog;
+        let mut new_start_live = None;
+        while in_memory.total_len() > max_rollback_log_len as usize {
+            new_start_live = in_memory.pop_oldest().map(|(id, _)| id.next());
+        }
+        if let (Some(new_start_live), false) = (new_start_live, in_memory.log.is_empty()) {
+            seglog.prune_oldest(new_start_live)?;
+        }
         let shared = Arc::new(Shared {
             worker_tp: ThreadPool::with_name("rollback-worker".into(), ROLLBACK_TP_SIZE),
             sync_tp: ThreadPool::with_name("rollback-sync".into(), 1),
